@@ -98,7 +98,11 @@ def execute(acc, case):
             sc.sched.max_steps = max(sc.sched.max_steps, sc.sched.steps + 300_000 + 150 * (total // frag))
             done = []
 
-            def submitter(mine, batch):
+            def submitter(mine, batch, late=False):
+                if late:
+                    # the last submitter waits until the library thread of this case stands parked: its messages are then
+                    # queued and handed over while that thread is in the middle of whatever line k belongs to
+                    sc.sched.block_until(lambda: bool(sc.sched.parked_at), 0.5, "late-submitter")
                 if batch:
                     sc.node.send_messages([o for _, o in mine])
                 else:
@@ -110,14 +114,20 @@ def execute(acc, case):
                 # source line while the submitters and the other thread go on (hand-over of the next stream, partial writes)
                 who, k = case["park_worker"]
                 who = who if who != "psm" else ("client_psm_thread" if case["role"] == "client" else "server_psm_thread")
-                sc.sched.parks.append({"task": who, "nth": k, "timeout": 0.02, "release": lambda: len(done) >= len(plans)})
+                funcs = {"write", "_write", "read", "_read", "_set_selector_events_mask"} if who == "transport_layer_thread" else \
+                        {"send_message_from_queue", "send_message", "event_send_message", "_set_selector_events_mask", "has_send_queue_message"}
+                # only the lines of the functions that move the outgoing stream are counted, so that k sweeps the hand-over itself
+                # (the threads execute thousands of other lines in between)
+                sc.sched.parks.append({"task": who, "nth": k, "funcs": funcs, "timeout": 0.02,
+                                       "release": lambda: len(done) >= len(plans) and assoc._send_messages.empty()})
             if case.get("park") is not None:
                 # park sweep (DESIGN 2.5b): submitter0 is descheduled at its n-th source line inside the library until the other
                 # submitters have returned and the send queue is empty (or half a virtual second has passed)
                 sc.sched.parks.append({"task": "submitter0", "nth": case["park"], "timeout": 0.5,
                                        "release": lambda: len(done) >= len(plans) - 1 and assoc._send_messages.empty()})
             for sidx, mine in enumerate(plans):
-                sc.sched.spawn("submitter%d" % sidx, submitter, mine, case.get("batch", False) and sidx % 2 == 0)
+                sc.sched.spawn("submitter%d" % sidx, submitter, mine, case.get("batch", False) and sidx % 2 == 0,
+                               bool(case.get("park_worker")) and sidx == len(plans) - 1)
             inbound_sent = []
             if case["inbound"]:
                 for k in range(case["inbound"]):
@@ -254,8 +264,8 @@ def plan(tier, seed):
         for w in (["fixed50"] if q else ["full", "fixed7", "zero-window"]):
             cases.append({"seed": seed * 53 + nth, "submitters": 2, "per": 2, "write": w, "inbound": 0, "strategy": "rw", "p": 0.02,
                           "role": ("client", "server")[nth % 2], "batch": nth % 4 == 3, "park": nth})
-    for who, span in (("transport_layer_thread", 60), ("psm", 70)):
-        for k in range(0, span, 2 if q else 1):
+    for who, span in (("transport_layer_thread", 90), ("psm", 90)):
+        for k in range(0, span, 1):
             for w in (["fixed50"] if q else ["full", "fixed7", "zero-window"]):
                 cases.append({"seed": seed * 59 + k, "submitters": 2, "per": 3, "write": w, "inbound": 2 if k % 3 == 0 else 0, "strategy": "rw", "p": 0.02,
                               "role": ("client", "server")[k % 2], "batch": k % 4 == 1, "park_worker": [who, k]})
